@@ -110,6 +110,9 @@ func C11(c *core.Ctx) {
 		}
 	}
 	c.Check("R2", "urrseq-sites", token.NoPos, nCalls == 3, fmt.Sprintf("%d call sites of URRSeq (exactly 3 emission sites)", nCalls))
+	// a number taken for a Session Report Request is not lost between serveUSAReport and the wire: the
+	// request is always booked for (re)transmission (shared with C09 R1)
+	sendReqAlwaysBooks(c, "R2")
 	for fn, iesName := range siteFn {
 		checkEmissionSite(c, fn, iesName, urrSeq, urrids)
 	}
@@ -354,6 +357,50 @@ func C12(c *core.Ctx) {
 		// ids taken away go through diassociateURR (update / remove)
 	}
 	c.Floor("R1", nGivers, 2, "functions that set a PDR's URR list")
+	// the list is written into the record the session keeps (the object in s.PDRIDs), not into a copy of it
+	pdrids := p.Field(pkgPfcp, "Sess", "PDRIDs")
+	for _, fn := range p.OwnFuncs() {
+		for k, st := range storesToField(fn, relF) {
+			fa := st.Addr.(*ssa.FieldAddr)
+			kept := false
+			switch b := fa.X.(type) {
+			case *ssa.Alloc:
+				// a new record: it (or its address) is entered in the table
+				for _, r := range *b.Referrers() {
+					if mu, ok := r.(*ssa.MapUpdate); ok && mu.Value == ssa.Value(b) {
+						if _, f, ok := core.LoadedField(mu.Map); ok && f == pdrids {
+							kept = true
+						}
+					}
+					if ld, ok := r.(*ssa.UnOp); ok && ld.Op == token.MUL {
+						for _, r2 := range *ld.Referrers() {
+							if mu, ok := r2.(*ssa.MapUpdate); ok && mu.Value == ssa.Value(ld) && core.Reaches(st, mu) {
+								if _, f, ok := core.LoadedField(mu.Map); ok && f == pdrids {
+									kept = true
+								}
+							}
+						}
+					}
+				}
+			default:
+				// an existing record reached through the table (a pointer looked up in s.PDRIDs)
+				if ex, ok := core.Unwrap(fa.X).(*ssa.Extract); ok {
+					if lk, ok := ex.Tuple.(*ssa.Lookup); ok {
+						if _, f, ok := core.LoadedField(lk.X); ok && f == pdrids {
+							kept = true
+						}
+					}
+				}
+				if lk, ok := core.Unwrap(fa.X).(*ssa.Lookup); ok {
+					if _, f, ok := core.LoadedField(lk.X); ok && f == pdrids {
+						kept = true
+					}
+				}
+			}
+			c.Check("R1", fmt.Sprintf("list-kept:%s#%d", core.FnName(fn), k+1), st.Pos(), kept,
+				"the URR list is stored in the PDR record that the session's table holds (a store into a local copy is lost: the PDR keeps its old list for every later update or removal)")
+		}
+	}
 	for _, m := range []string{"UpdatePDR", "RemovePDR"} {
 		fn := fnOf(c, "R1", pkgPfcp, "Sess", m)
 		if fn == nil {
@@ -530,6 +577,24 @@ func C12(c *core.Ctx) {
 			}
 			c.Check("R4", "final-query-at-zero", ci.Pos(), atZero, "the final usage query runs exactly when the decremented reference count reached zero (last PDR detached)")
 		}
+	}
+
+	// R3: each report of the response is encoded and its record dropped from ITS OWN data (no value carried
+	// over from another report of the loop, no late closure seeing the last report only)
+	independentIterations(c, "R3", handlerFns(p))
+	// R4: what the final query measured is what comes back: the driver's conversion loops keep every report
+	// the data plane returned (C10 R1 conv-total), so an idle URR still yields its (zero) termination report
+	if f10, ok := Registry["C10"]; ok {
+		sub, _ := core.NewCtx(c.P, "C10", c.Tier, c.Seed, c.OutDir, "")
+		f10(sub)
+		n := 0
+		for _, o := range sub.Obls {
+			if strings.Contains(o.Key, "/R1/conv-total:") {
+				n++
+				c.Check("R4", "final-report-kept:"+o.Key[strings.Index(o.Key, "conv-total:")+len("conv-total:"):], token.NoPos, o.OK, o.Desc+" (C10 R1)")
+			}
+		}
+		c.Floor("R4", n, 3, "report conversion loops")
 	}
 
 	// R5 creation order in the handlers
